@@ -90,11 +90,12 @@ Section Send.
     | None => r
     end.
 
-  (** [if let Ok(data) = &data { data.apply_to_response(..) }]; 416 replaces the WHOLE response
-      (also the [alt-svc] header appended just before). *)
+  (** [if let (Ok(data), false) = (&data, not_modified) { data.apply_to_response(..) }]: a 304 is sent as it is
+      (C09's repair); 416 replaces the WHOLE response (also the [alt-svc] header appended just before). *)
   Definition apply_sd (sd : outcome (option (N * N))) (r : resp) : outcome resp :=
     match sd with
     | Ok range =>
+        if rs_status r =? 304 then Ok r else
         match apply_range checked range (rs_status r) (rs_body r) with
         | Ok g =>
             let h1 := if r_accept_ranges g then hm_insert H_AR V_BYTES (rs_headers r) else rs_headers r in
@@ -585,6 +586,7 @@ Definition spec_ex (ops : list pkg_op) (e416 : resp) (e : exch) : wreply :=
   let after_range : resp :=
     match sd_of (ex_path_ok e) (ex_range e) with
     | Ok range =>
+        if rs_status r =? 304 then r else
         match range_spec (match ex_range e with Some v => parse_range v | None => None end) (rs_body r) with
         | R416 => e416
         | RResp g =>
